@@ -205,3 +205,31 @@ pub fn run_fixed(plan: &Plan, cases: &[(String, Case)], into: &mut CampaignResul
         }
     }
 }
+
+/// Greedy step deletion (used where proptest's own shrinking is not available).
+pub fn shrink(plan: &Plan, case: Case) -> Case {
+    let mut cur = case;
+    let mut changed = true;
+    let mut budget = 400;
+    while changed && budget > 0 {
+        changed = false;
+        for i in 0..cur.steps.len() {
+            if cur.steps.len() <= 1 {
+                break;
+            }
+            let mut t = cur.clone();
+            t.steps.remove(i);
+            budget -= 1;
+            let r = driver::run_case(&t, plan.opts);
+            if r.internal.is_empty() && first_relevant(plan.prop, &r).is_some() {
+                cur = t;
+                changed = true;
+                break;
+            }
+            if budget == 0 {
+                break;
+            }
+        }
+    }
+    cur
+}
